@@ -336,6 +336,8 @@ func runC15(c *Ctx) {
 	shareRule(c, "C08", runC08, []string{"C08.R1", "C08.R2"}, "R7", "COV+TAB", "on the JSON encoding of the hop the receiver reads every field the exporter writes, with the reader that accepts the writer's spelling (same rules as C08.R1/R2): e.g. non-finite doubles written as strings are read with the NaN/Inf-aware helper", 100)
 	runC15Throttle(c)
 	runC15Shares4(c)
+	runC15Round5(c)
+	runC15JSONExhausted(c)
 }
 
 func runC15Wiring(c *Ctx, names map[int64]string) {
